@@ -50,4 +50,4 @@ def unit():
     enc = K.std_block_mode_mod(
         'cfb8', 'enc', 'cfb8/src/encrypt.rs', 'cfb8_enc_step', cipher_field='backend',
         init_fns=K.init_plain(('C09', 'C03')), state_fns=K.state_plain(), props_rec=P_REC, backend_fns=fns(True))
-    return Unit('cfb8', prelude=K.PRELUDE_BLOCK, spec=['steps.rs'], mods=[dec, enc])
+    return Unit('cfb8', prelude=K.PRELUDE_BLOCK, spec=['steps.rs'], mods=K.DEPS() + [dec, enc])
